@@ -307,11 +307,15 @@ def r4_curve(rep, ctx):
             S = c2.node_of(st)
             okc = False
             for c in own_nodes(fn.node):
-                if isinstance(c, ast.Call) and isinstance(c.func, ast.Attribute) and c.func.attr == "_CheckImageAndDomainLength" and len(c.args) == 2:
+                if isinstance(c, ast.Call) and isinstance(c.func, ast.Attribute) and c.func.attr == "_CheckImageAndDomainLength":
+                    from ..facts import ordered_args
+                    oa = ordered_args(c, chk)
+                    if len(oa) < 2 or oa[0] is None or oa[1] is None:
+                        continue
                     cn = c2.node_of(c)
                     if not c2.dominated_by_node(S, lambda k, a, cn=cn: a is c2.ast[cn]):
                         continue
-                    img, dom = r2.term(c.args[0]), r2.term(c.args[1])
+                    img, dom = r2.term(oa[0]), r2.term(oa[1])
                     mine, other = (img, dom) if attr == "_image" else (dom, img)
                     other_attr = "_domain" if attr == "_image" else "_image"
                     # the other half: the stored field, or what this function stores into it
